@@ -112,15 +112,17 @@ def gene_rows_fn(strand, frames, mode):
         par = chunk_parent(kw["w"], 30)
         s0, l0, g, l1 = kw["s0"], kw["l0"], kw["g"], kw["l1"]
         ex = [(s0, s0 + l0), (s0 + l0 + g, s0 + l0 + g + l1)]
-        cds = [ex[1]]
-        t1 = TranscriptInterval([e[0] for e in ex], [e[1] for e in ex], strand, [ex[1][0]], [ex[1][1]], [CDSFrame(frames[0])], guid=801,
-                                transcript_id="tx1", sequence_name="chr1", parent_or_seq_chunk_parent=par)
+        cds = [ex[0], ex[1]] if len(frames) == 2 else [ex[1]]
+        t1 = TranscriptInterval([e[0] for e in ex], [e[1] for e in ex], strand, [c[0] for c in cds], [c[1] for c in cds],
+                                [CDSFrame(f) for f in frames], guid=801, transcript_id="tx1", sequence_name="chr1", parent_or_seq_chunk_parent=par)
         gene = GeneInterval([t1], guid=800, gene_id="gid", sequence_name="chr1", parent_or_seq_chunk_parent=par)
         rel = mode == "chunk_rel"
         rows = [str(r) for r in gene.to_gff(chromosome_relative_coordinates=not rel)]
         off = kw["w"] if rel else 0
         expect = [("gene", ex[0][0], ex[1][1], "+", "."), ("transcript", ex[0][0], ex[1][1], sym, "."), ("exon", ex[0][0], ex[0][1], sym, "."),
-                  ("exon", ex[1][0], ex[1][1], sym, "."), ("CDS", ex[1][0], ex[1][1], sym, str(CDSFrame(frames[0]).to_phase().value))]
+                  ("exon", ex[1][0], ex[1][1], sym, ".")]
+        for (cs, ce), f in zip(cds, frames):
+            expect.append(("CDS", cs, ce, sym, str(CDSFrame(f).to_phase().value)))
         # a gene's own rows are emitted parent-first, not globally sorted: order is checked on collections (non-chunk obligations)
         return check_rows(rows, expect, off, ordered=False)
 
@@ -395,8 +397,12 @@ def obligations(tier):
     for strand in (PLUS, MINUS):
         for frames in (([1],), ([0, 2],), ([2],)) if quick else (([0],), ([1],), ([2],), ([0, 2],), ([1, 1],), ([2, 0],)):
             frames = frames[0] if isinstance(frames, tuple) else frames
-            for mode in (None, "chunk_rel") if quick else (None, "chunk_chrom", "chunk_rel"):
-                if quick and mode and (strand is MINUS or frames != [1]):
+            for mode in (None, "chunk_rel", "chunk_chrom") if quick else (None, "chunk_chrom", "chunk_rel"):
+                if quick and mode == "chunk_chrom" and not (strand is PLUS and frames == [0, 2]):
+                    continue
+                if quick and mode == "chunk_chrom":
+                    pass
+                elif quick and mode and (strand is MINUS or frames != [1]):
                     continue
                 params = dict(base)
                 if mode:
